@@ -28,6 +28,8 @@ def run(ctx):
     fm = ctx.need("C05.L", MMAP)
     if fm is not None:
         rule_locked_take(ctx, "C05.L", fm, 1)
+        if rule_spawn_count(ctx, "C05.L", fm, "vectorise_mmap") < 1:
+            ctx.fail("C05.L", "vectorise_mmap:spawn_count:floor", "no `for _ in 0..threads` worker spawn loop found", fm.fn["sp"])
     for path, n in (("counter::CountComputer::count_chunk", 1), ("misc::minimisers::bin_sequences", 1),
                     ("misc::minimisers::seq_to_min", 1)):
         fv = ctx.need("C05.L", path)
@@ -55,8 +57,10 @@ def run(ctx):
     c06.suffix_rule(dep(ctx, "C05", "C06"))
     c06.accessor_rule(dep(ctx, "C05", "C06"))
     # "the output bytes" are exactly this run's rows: the mapped file is truncated and sized before mapping
-    from . import c17, c15
+    from . import c17, c15, c14
     c17.open_rules(dep(ctx, "C05", "C17"))
+    if fm is not None:
+        c14.size_rule(dep(ctx, "C05", "C14"), fm)       # rows sit at header + n * row width: the width is the row's
     # identical bytes for every thread count incl. the CLI default: at least one worker is always spawned
     fcli = ctx.view(c15.CLI, c15.UNIT)
     if fcli is not None:
